@@ -21,7 +21,10 @@ const (
 	// VerifPointWriteBeforeQueue is in Session.writeChunk before the output
 	// lock is taken to queue fragments.
 	VerifPointWriteBeforeQueue = 3
-	verifPointMax              = 8
+	// VerifPointInputBeforeProcess is in Session.runInputLoop after a segment
+	// has been taken from the receive channel and before it is processed.
+	VerifPointInputBeforeProcess = 4
+	verifPointMax                = 8
 )
 
 var verifPoints [verifPointMax]atomic.Pointer[func()]
